@@ -391,7 +391,9 @@ func (s *pState) flush(cw *cwriter.Writer, height int, iter <-chan *Bar) error {
 		}
 		var usedRows int
 		for i := len(frame.rows) - 1; i >= 0; i-- {
-			if row := frame.rows[i]; len(rows) < height {
+			// every row ends with a new line, so at most height-1 rows fit
+			// without scrolling the topmost one out of the screen
+			if row := frame.rows[i]; len(rows) < height-1 {
 				rows = append(rows, row)
 				usedRows++
 			} else {
